@@ -139,3 +139,30 @@ func finalTags(final string) string {
 		out = append(out, it)
 	}
 }
+
+// rawTags lists every start / self-closing tag of doc as the tokenizer reports it, together with
+// the raw bytes of the token (taken BEFORE TagName lower-cases the name in place), for the
+// comparison with the tag-scanning model (coq/Model/SanitizeTag.v):
+// <raw>.<name>.<selfclosing>[.<key>~<val>]*
+func rawTags(doc string) string {
+	z := html.NewTokenizer(strings.NewReader(doc))
+	var out []string
+	for {
+		tt := z.Next()
+		if tt == html.ErrorToken {
+			return join(out, "|")
+		}
+		if tt != html.StartTagToken && tt != html.SelfClosingTagToken {
+			continue
+		}
+		raw := append([]byte(nil), z.Raw()...)
+		name, more := z.TagName()
+		it := vh.H(raw) + "." + vh.H(name) + "." + vh.B(tt == html.SelfClosingTagToken)
+		for more {
+			var k, v []byte
+			k, v, more = z.TagAttr()
+			it += "." + vh.H(k) + "~" + vh.H(v)
+		}
+		out = append(out, it)
+	}
+}
